@@ -88,8 +88,57 @@ func edgeAllowed(b *ssa.BasicBlock, i int, as []Assumption) bool {
 	return true
 }
 
+// evalUnder evaluates a boolean SSA value under the assumptions, entering block b from pred (for phis of b):
+// 1 true, 0 false, -1 unknown.
+func evalUnder(v ssa.Value, b, pred *ssa.BasicBlock, as []Assumption, depth int) int {
+	if depth > 6 {
+		return -1
+	}
+	switch x := v.(type) {
+	case *ssa.Const:
+		if x.Value != nil {
+			switch x.Value.ExactString() {
+			case "true":
+				return 1
+			case "false":
+				return 0
+			}
+		}
+		return -1
+	case *ssa.UnOp:
+		if x.Op == token.NOT {
+			if r := evalUnder(x.X, b, pred, as, depth+1); r >= 0 {
+				return 1 - r
+			}
+			return -1
+		}
+	case *ssa.ChangeType:
+		return evalUnder(x.X, b, pred, as, depth+1)
+	case *ssa.Phi:
+		if x.Block() == b && pred != nil {
+			for i, p := range b.Preds {
+				if p == pred && i < len(x.Edges) {
+					return evalUnder(x.Edges[i], b, nil, as, depth+1)
+				}
+			}
+		}
+		return -1
+	}
+	for _, a := range as {
+		if a.Var.matches(v) {
+			if a.Val {
+				return 1
+			}
+			return 0
+		}
+	}
+	return -1
+}
+
 // ReachUnder reports whether an instruction satisfying target is reachable from the start blocks (entry when nil)
-// along edges consistent with the assumptions without executing a barrier instruction first.
+// along edges consistent with the assumptions without executing a barrier instruction first. Branch conditions are
+// evaluated under the assumptions; a condition that is a phi of the branching block (the join of a short-circuit
+// `a && b` / `a || b`) is evaluated per incoming edge.
 func ReachUnder(fn *ssa.Function, as []Assumption, starts []*ssa.BasicBlock, barrier func(ssa.Instruction) bool, target func(ssa.Instruction) bool) ssa.Instruction {
 	if len(fn.Blocks) == 0 {
 		return nil
@@ -97,14 +146,15 @@ func ReachUnder(fn *ssa.Function, as []Assumption, starts []*ssa.BasicBlock, bar
 	if starts == nil {
 		starts = []*ssa.BasicBlock{fn.Blocks[0]}
 	}
-	seen := map[*ssa.BasicBlock]bool{}
+	type state struct{ b, pred *ssa.BasicBlock }
+	seen := map[state]bool{}
 	var found ssa.Instruction
-	var walk func(b *ssa.BasicBlock)
-	walk = func(b *ssa.BasicBlock) {
-		if seen[b] || found != nil {
+	var walk func(b, pred *ssa.BasicBlock)
+	walk = func(b, pred *ssa.BasicBlock) {
+		if seen[state{b, pred}] || found != nil {
 			return
 		}
-		seen[b] = true
+		seen[state{b, pred}] = true
 		for _, in := range b.Instrs {
 			if target(in) {
 				found = in
@@ -114,14 +164,26 @@ func ReachUnder(fn *ssa.Function, as []Assumption, starts []*ssa.BasicBlock, bar
 				return
 			}
 		}
-		for i, s := range b.Succs {
-			if edgeAllowed(b, i, as) {
-				walk(s)
+		known := -1
+		if len(b.Instrs) > 0 {
+			if iff, ok := b.Instrs[len(b.Instrs)-1].(*ssa.If); ok {
+				known = evalUnder(iff.Cond, b, pred, as, 0)
 			}
+		}
+		for i, s := range b.Succs {
+			if known >= 0 && len(b.Succs) == 2 {
+				// successor 0 is taken when the condition is true
+				if (i == 0) != (known == 1) {
+					continue
+				}
+			} else if !edgeAllowed(b, i, as) {
+				continue
+			}
+			walk(s, b)
 		}
 	}
 	for _, s := range starts {
-		walk(s)
+		walk(s, nil)
 	}
 	return found
 }
